@@ -20,6 +20,14 @@ Definition fcompare : f64 -> f64 -> option comparison := SFcompare.
 Definition feqb : f64 -> f64 -> bool := SFeqb.
 Definition fleb : f64 -> f64 -> bool := SFleb.
 
+Arguments fadd : simpl never.
+Arguments fsub : simpl never.
+Arguments fmul : simpl never.
+Arguments fdiv : simpl never.
+Arguments fcompare : simpl never.
+Arguments feqb : simpl never.
+Arguments fleb : simpl never.
+
 Definition fzero : f64 := S754_zero false.
 Definition fnegzero : f64 := S754_zero true.
 Definition fnan : f64 := S754_nan.
